@@ -61,8 +61,8 @@ def anti_starvation(ctx):
                 ks = litset(lits)
                 if other in ks:
                     for a, p in lits:
-                        if p and isinstance(a, Op) and a.op == "|":
-                            dk = disj(a)
+                        dk = as_disj(a, p)
+                        if dk is not None:
                             dks = litset(dk)
                             if "~" + mine in dks:
                                 rest = [x for x in dk if lkey(x) != "~" + mine]
@@ -84,8 +84,8 @@ def anti_starvation(ctx):
             if not ob.need(cnt is not None, "nphases=%d: time-out %s is not (counter == 0)" % (nph, key(tmo))):
                 continue
             ds = v.drivers(cnt)
-            load = [d for d in ds if lin_diff(d.value, Sym(tname)) is not None and lin_diff(d.value, Sym(tname)).is_const()]
             dec = [d for d in ds if lin_diff(d.target, d.value) is not None and lin_diff(d.target, d.value).is_const() and lin_diff(d.target, d.value).constval() == 1]
+            load = [d for d in ds if d not in dec]
             if not ob.need(len(load) == 1 and len(dec) == 1, "nphases=%d: time-out counter %s does not match the load/decrement template" % (nph, key(cnt))):
                 continue
             en = [a for a, p in v.guard_lits(load[0], False) if not p]
